@@ -7,8 +7,9 @@
  * prints one line per member
  *   E <namehex> <mode-octal> <declared size> <H|-> <linkhex|-> [D <bytes delivered> <fnv1a of the data>] | [BIG]
  * and finally `END <0 = clean end of archive | negative SQFS_ERROR code>`.  Reading a member stops after the limit
- * (BIG): the check uses this to keep archives that merely *declare* huge sparse files (holes cost no input) away
- * from the packers: their running time is bounded by the declared size, which is not what C07 is about.
+ * (BIG): the check uses this to keep *mutated* archives that merely declare huge sparse files (holes cost no input)
+ * away from the packers, whose running time is proportional to the declared size — a defect of its own (a finite
+ * input, unbounded time) that the check probes separately with declared sizes 2^40 / 2^50 / 2^60 under a CPU limit.
  */
 #include "config.h"
 #include "sqfs/io.h"
